@@ -295,7 +295,7 @@ def run_token_sweeps(ck):
             for order in ORDERS_LR:
                 token_case(ck, "tok_sweep_mulprod", fname, order, shape, dim)
     ck.note_add("sweep_mulprod_L_values", len(sel))
-    ck.note("sweep_mulprod_complete", bool(thorough))
+    ck.note("sweep_mulprod_complete", "every L in 1..4096" if thorough else "sampled L (see RULE)")
 
 
 DIM_L_QUICK = (1, 2, 3, 5, 7, 8, 9, 31, 33, 100)
@@ -455,7 +455,7 @@ def run_groups(ck):
                 if not ck.mine(i):
                     continue
                 group_case(ck, G, dn, L, (L + i // Lmax) % 4, rng, variants)
-    ck.note("group_L_max", Lmax)
+    ck.note_max("max_group_L", Lmax)
 
 
 # ---------------------------------------------------------------------------- plain matrices
